@@ -1,20 +1,20 @@
 (* C02 — program-level theorems. *)
-From Yv Require Import Common.Base C02.Model C02.Spec C02.ProofsMono C02.ProofsSim.
+From Yv Require Import Common.Base C02.Model C02.Spec C02.ProofsMono C02.ProofsSim C02.ProofsRev.
 
 (* ------------------------------------------------------------------ *)
 (* exec_sound                                                          *)
 (* ------------------------------------------------------------------ *)
-Lemma state_ok_init strict : state_ok strict init_state.
+Lemma state_ok_init : state_ok init_state.
 Proof. split; cbn; intros; try discriminate; reflexivity. Qed.
 
 Lemma set_status_zero s : status s = 0%N -> set_status 0 s = s.
 Proof. intros E. rewrite <- E. apply set_status_same. Qed.
 
-Lemma lines_sim strict n : forall p executed s r s1,
+Lemma lines_sim n : forall p executed s r s1,
   run_lines n p executed s = Some (r, s1) ->
-  forallb (wf_line strict) p = true -> state_ok strict s ->
+  forallb wf_line p = true -> state_ok s ->
   (executed = false -> status s = 0%N) ->
-  state_ok strict s1 /\ (forall o, r <> Brk (DAbort o)) /\
+  state_ok s1 /\ (forall o, r <> Brk (DAbort o)) /\
   ok (fun k => sem_lines k p s) (abs None r s1).
 Proof.
   induction p as [|l p IH]; intros executed s r s1 H Hw Hs Hex.
@@ -28,7 +28,7 @@ Proof.
     + cbn [run_lines] in H. cbn [wf_line] in Hwl.
       destruct (exec_list n [] l s) as [[rl sl]|] eqn:El; [|discriminate].
       assert (Hc : ctx_ok [] 0 false false) by (split; cbn; auto).
-      destruct (sa_list _ _ (sim_holds strict n) _ _ _ _ _ _ _ _ El Hc Hwl Hs) as (Hs1 & Hr1 & Hok1).
+      destruct (sa_list _ (sim_holds n) _ _ _ _ _ _ _ _ El Hc Hwl Hs) as (Hs1 & Hr1 & Hok1).
       specialize (Hok1 None).
       destruct rl as [|dv].
       * destruct (IH _ _ _ _ H Hwp Hs1) as (Hs2 & Hr2 & Hok2); [discriminate|].
@@ -43,12 +43,12 @@ Proof.
       exists 0. intros k _. reflexivity.
 Qed.
 
-Lemma exec_sound_strict strict p o :
-  forallb (wf_line strict) p = true -> model_result p o -> spec_result p o.
+Lemma exec_sound_strict p o :
+  forallb wf_line p = true -> model_result p o -> spec_result p o.
 Proof.
   intros Hw [n H]. unfold model_run in H.
   destruct (run_lines n p false init_state) as [[r s1]|] eqn:El; [|discriminate].
-  destruct (lines_sim strict n _ _ _ _ _ El Hw (state_ok_init strict)) as (Hs1 & Hr1 & Hok1);
+  destruct (lines_sim n _ _ _ _ _ El Hw state_ok_init) as (Hs1 & Hr1 & Hok1);
     [reflexivity|].
   assert (Hrun : exists s3, run_exit_trap n [] (apply_result r s1) = Some s3 /\ o = observe s3).
   { destruct r as [|[c|c|x|x|x|x]];
@@ -56,8 +56,8 @@ Proof.
            inversion H; subst o; eexists; split; reflexivity).
     exfalso. eapply Hr1. reflexivity. }
   destruct Hrun as (s3 & Et & ->).
-  pose proof (sa_trap _ _ (sim_holds strict n) _ _ _ false Et eq_refl
-                (state_ok_apply_result strict r s1 Hs1)) as Hok2.
+  pose proof (sa_trap _ (sim_holds n) _ _ _ false Et eq_refl
+                (state_ok_apply_result r s1 Hs1)) as Hok2.
   rewrite <- abs_none_apply_result in Hok2.
   destruct (abs None r s1) as [c s2]. cbn [snd] in Hok2.
   apply ok_some. unfold spec_run. ok_start. ok_rw. reflexivity.
@@ -65,8 +65,7 @@ Qed.
 
 Lemma exec_sound_lemma p o : wf_prog p = true -> model_result p o -> spec_result p o.
 Proof.
-  unfold wf_prog. intros Hw. apply orb_true_iff in Hw as [Hw|Hw];
-    eapply exec_sound_strict; exact Hw.
+  exact (exec_sound_strict p o).
 Qed.
 
 (* ------------------------------------------------------------------ *)
@@ -87,15 +86,15 @@ Lemma andor_tree_left_nested_lemma first rest is_and p :
   = AONode (andor_tree (AndOr first rest)) is_and p.
 Proof. apply aotree_of_snoc. Qed.
 
-Lemma andor_model_is_tree strict n stk a s r s' d infun ex :
+Lemma andor_model_is_tree n stk a s r s' d infun ex :
   exec_andor n stk a s = Some (r, s') -> ctx_ok stk d infun ex ->
-  wf_andor strict d infun a = true -> state_ok strict s ->
+  wf_andor d infun a = true -> state_ok s ->
   forall sv, exists m,
     sem_tree (fun ex' p s0 => sem_pipeline m d ex' sv p s0) ex (andor_tree a) true s
     = Some (abs sv r s').
 Proof.
   intros H Hc Hw Hs sv.
-  destruct (sa_andor _ _ (sim_holds strict n) _ _ _ _ _ _ _ _ H Hc Hw Hs) as (_ & _ & Hok).
+  destruct (sa_andor _ (sim_holds n) _ _ _ _ _ _ _ _ H Hc Hw Hs) as (_ & _ & Hok).
   destruct (Hok sv) as [m Hm]. exists m. specialize (Hm (S m) (Nat.le_succ_diag_r m)). exact Hm.
 Qed.
 
@@ -159,25 +158,25 @@ Proof.
   apply (min_depth _ d infun ex); [apply ctx_builtin; exact Hc | exact Hk].
 Qed.
 
-Lemma levels_lemma strict n stk c s r s' d infun ex :
+Lemma levels_lemma n stk c s r s' d infun ex :
   exec_cmd n stk c s = Some (r, s') -> ctx_ok stk d infun ex ->
-  wf_cmd strict d infun c = true -> state_ok strict s ->
+  wf_cmd d infun c = true -> state_ok s ->
   (forall k, r = Brk (DBreak k) -> k < d) /\ (forall k, r = Brk (DContinue k) -> k < d).
 Proof.
   intros H Hc Hw Hs.
-  destruct (sa_cmd _ _ (sim_holds strict n) _ _ _ _ _ _ _ _ H Hc Hw Hs) as (_ & Hr & _).
-  split; [apply (ro_break _ _ _ _ Hr) | apply (ro_continue _ _ _ _ Hr)].
+  destruct (sa_cmd _ (sim_holds n) _ _ _ _ _ _ _ _ H Hc Hw Hs) as (_ & Hr & _).
+  split; [apply (ro_break _ _ _ Hr) | apply (ro_continue _ _ _ Hr)].
 Qed.
 
 (* no break / continue escapes a function body or a whole script *)
-Lemma function_body_consumes_loops strict n stk body s r s' ex :
+Lemma function_body_consumes_loops n stk body s r s' ex :
   exec_cmd n stk body s = Some (r, s') -> ex = has_cond stk ->
-  wf_cmd strict 0 true body = true -> state_ok strict s ->
+  wf_cmd 0 true body = true -> state_ok s ->
   forall k, r <> Brk (DBreak k) /\ r <> Brk (DContinue k).
 Proof.
   intros H He Hw Hs k.
   assert (Hc : ctx_ok stk 0 true ex) by (split; [exact He | lia | discriminate]).
-  destruct (levels_lemma strict n stk body s r s' 0 true ex H Hc Hw Hs) as [A B].
+  destruct (levels_lemma n stk body s r s' 0 true ex H Hc Hw Hs) as [A B].
   split; intros E; [specialize (A k E) | specialize (B k E)]; lia.
 Qed.
 
@@ -301,3 +300,64 @@ Proof.
   intros [a b] [c d]. unfold pair_eqb. cbn. rewrite andb_true_iff, !N.eqb_eq.
   split; [intros [-> ->]; reflexivity | intros E; inversion E; auto].
 Qed.
+
+(* ------------------------------------------------------------------ *)
+(* exec_complete: the converse of exec_sound                           *)
+(* ------------------------------------------------------------------ *)
+Lemma lines_rsim n : forall p executed s c s1',
+  sem_lines n p s = Some (c, s1') ->
+  forallb wf_line p = true -> state_ok s ->
+  (executed = false -> status s = 0%N) ->
+  exists r s1, ok (fun k => run_lines k p executed s) (r, s1) /\ abs None r s1 = (c, s1')
+               /\ state_ok s1 /\ (forall o, r <> Brk (DAbort o)).
+Proof.
+  induction p as [|l p IH]; intros executed s c s1' H Hw Hs Hex.
+  - cbn in H. inversion H; subst c s1'. exists Cont, s. split; [|split; [reflexivity|]].
+    + exists 0. intros k _. cbn [run_lines].
+      destruct executed; [reflexivity|]. rewrite set_status_zero; auto.
+    + split; [exact Hs | intros; discriminate].
+  - cbn [forallb] in Hw. apply andb_true_iff in Hw as [Hwl Hwp].
+    destruct l as [l|].
+    + cbn [sem_lines] in H. cbn [wf_line] in Hwl.
+      destruct (sem_list n 0 false None l s) as [[c1 s1]|] eqn:El; [|discriminate].
+      assert (Hc : ctx_ok [] 0 false false) by (split; cbn; auto).
+      destruct (ra_list _ (rsim_holds n) [] _ _ _ _ _ _ _ El Hc Hwl Hs)
+        as (rl & sl & Hokl & Habsl).
+      destruct (fwd_list _ _ _ _ _ _ _ _ Hokl Hc Hwl Hs) as [Hsl Hrl].
+      destruct (abs_split _ _ _ _ _ Habsl) as [(-> & -> & ->) | (Hne & dv & ->)].
+      * destruct (IH true _ _ _ H Hwp Hsl) as (r & s2 & Hok & Habs & Hs2 & Hr2); [discriminate|].
+        exists r, s2. split; [|auto].
+        ok_start. cbn [run_lines]. ok_rw. reflexivity.
+      * exists (Brk dv), sl. split; [ok_start; cbn [run_lines]; ok_rw; reflexivity|].
+        split; [|split; [exact Hsl | apply (ro_abort _ _ _ Hrl)]].
+        destruct c1 as [|kk|kk| |]; [congruence|..]; inversion H; subst; exact Habsl.
+    + cbn [sem_lines] in H. inversion H; subst c s1'.
+      exists (Brk (DInterrupt (Some 2%N))), s. split; [|split; [reflexivity|]].
+      * exists 0. intros k _. reflexivity.
+      * split; [exact Hs | intros; discriminate].
+Qed.
+
+Lemma exec_complete_strict p o :
+  forallb wf_line p = true -> spec_result p o -> model_result p o.
+Proof.
+  intros Hw [n H]. unfold spec_run in H.
+  destruct (sem_lines n p init_state) as [[c s1']|] eqn:El; [|discriminate].
+  destruct (sem_exit_trap n false s1') as [s2|] eqn:Et; [|discriminate].
+  inversion H; subst o.
+  destruct (lines_rsim n _ false _ _ _ El Hw state_ok_init)
+    as (r & s1 & Hok1 & Habs1 & Hs1 & Hr1); [reflexivity|].
+  assert (E : s1' = apply_result r s1) by (rewrite <- abs_none_apply_result, Habs1; reflexivity).
+  subst s1'.
+  pose proof (ra_trap _ (rsim_holds n) [] _ _ false Et eq_refl
+                (state_ok_apply_result r s1 Hs1)) as Hok2.
+  apply ok_some. unfold model_run. ok_start. ok_rw.
+  destruct r as [|[c0|c0|x|x|x|x]]; try reflexivity. exfalso. eapply Hr1. reflexivity.
+Qed.
+
+Lemma exec_complete_lemma p o : wf_prog p = true -> spec_result p o -> model_result p o.
+Proof.
+  exact (exec_complete_strict p o).
+Qed.
+
+Lemma model_eq_spec_lemma p o : wf_prog p = true -> (model_result p o <-> spec_result p o).
+Proof. intros H; split; [apply exec_sound_lemma | apply exec_complete_lemma]; exact H. Qed.
